@@ -175,3 +175,14 @@ Theorem C06_capstone_nonvacuous_observable :
     /\ metric_fltc ir_gower x y = Some f1 /\ / 2 ^ 1022 < f2r f1
     /\ metric_fltc ir_non_intersection x y = Some f2 /\ / 2 ^ 1022 < f2r f2.
 Proof. exact capstone_nonvacuous_observable. Qed.
+
+(* the side condition cannot be dropped: x = [2^-600], y = [0] - all floats finite, the square underflows to 0, the computed
+   squared_euclidean is 0 while the closed form is 2^-1200 > 0 *)
+Theorem C06_capstone_squared_euclidean_refuted_without_condition :
+  exists (x y : list PrimFloat.float) (f : PrimFloat.float),
+    Forall (fun a => ffin a = true) x /\ Forall (fun a => ffin a = true) y /\ length x = length y /\ (1 <= length x)%nat
+    /\ (Z.of_nat (length x) <= 2 ^ 53)%Z
+    /\ metric_fltc ir_squared_euclidean x y = Some f
+    /\ ~ Rabs (f2r f - sp_squared_euclidean (map f2r x) (map f2r y))
+         <= ((1 + u64) ^ (length x + 2) - 1) * sp_squared_euclidean (map f2r x) (map f2r y).
+Proof. exact capstone_squared_euclidean_refuted_without_condition. Qed.
